@@ -457,23 +457,6 @@ static void c14Unopenable() {
         expectRuntime("loadBinaryEdgeList(unlabelled)", p, [&] { (void)io::loadBinaryEdgeList<LabeledDirectedGraph, NoLabel>(p); });
         expectRuntime("loadBinaryEdgeList(labelled)", p, [&] { (void)io::loadBinaryEdgeList<LabeledUndirectedGraph, int>(p); });
     }
-    // swapBytes is byte reversal (all that can be said about the big-endian branch on this host)
-    for (unsigned v = 0; v < 65536; ++v) {
-        uint16_t x = (uint16_t)v, y = x;
-        io::swapBytes(y);
-        ++g_cases;
-        if (y != (uint16_t)((x >> 8) | (x << 8))) { fail("c14.swap", "swapBytes<uint16_t>(" + std::to_string(x) + ") = " + std::to_string(y), "--part unopenable"); break; }
-    }
-    uint32_t a = 0x01020304u;
-    io::swapBytes(a);
-    uint64_t b = 0x0102030405060708ull;
-    io::swapBytes(b);
-    double dd = 0;
-    uint64_t raw = 0x0102030405060708ull, rawSwapped = 0x0807060504030201ull, back;
-    memcpy(&dd, &raw, 8);
-    io::swapBytes(dd);
-    memcpy(&back, &dd, 8);
-    if (a != 0x04030201u || b != 0x0807060504030201ull || back != rawSwapped) fail("c14.swap", "swapBytes is not byte reversal for 4/8-byte values", "--part unopenable");
 }
 
 // ------------------------------------------------------------------------------------------- C15
